@@ -130,6 +130,53 @@ SEEDS3 = {
  'C20f': ('C20', 'S20r3', 'patch2.diff', 'demo2.py', 'delete_branch drops the checkout before tagging (exists() already did one, the queue collection moved HEAD since); needs queues and a q/ branch of another version', True),
 }
 
+# fourth round: larger clean-ups (40-60 changed lines, helpers extracted
+# across functions and modules) with one wrong detail, each delivered with a
+# repaired twin.  Optional 7th field: why the change is out of reach.
+TWIN_LIMIT = ('the repaired twin of this change is a known limit of the '
+              'normaliser (limits/): the check cannot tell the change from '
+              'its twin, so its verdict on either is not counted')
+SEEDS4 = {
+ 'C01f': ('C01', 'S01r4', 'patch.diff', 'demo.py', 'robust_merge with an octopus_ok flag and one dst.merge(merged): when the octopus attempt fails the untouched scratch branch is merged (a no-op); needs no-queue mode, >= 2 targets and an octopus merge that conflicts in both orders while consecutive merges succeed', True),
+ 'C01g': ('C01', 'S01r4', 'patch2.diff', 'demo2.py', '_remove_unmergeable with index arithmetic, min(..., default=0) instead of default=len(pr_ids): a version with no mergeable pull request keeps its whole queue; needs an older green PR on a later branch and a newer red one on an earlier branch', False, 'which entries are deleted is a value of index arithmetic over a runtime list (same as C02d)'),
+ 'C02f': ('C02', 'S02r4', 'patch.diff', 'demo.py', 'robust_merge keep-condition loses the "octopus attempt conflicted" operand: dst gets nothing; needs an octopus conflict in both orders (rename + edit), queues disabled: partial landing', True),
+ 'C02g': ('C02', 'S02r4', 'patch2.diff', 'demo2.py', 'rebuild_queues split into helpers, the guard clause tests queued_prs instead of queue_branches: the documented queue reset reports success without deleting; needs q/ branches with no queued PR (crash between the q/ pushes)', False),
+ 'C03g': ('C03', 'S03r4', 'patch.diff', 'demo.py', '_process with the per-path lookup extracted, "smallest table" test against len(queued_prs) instead of len(mergeable_prs): the last path that rejects anything wins; needs two merge paths with failures on both, the later one less restrictive', True),
+ 'C03h': ('C03', 'S03r4', 'patch2.diff', 'demo2.py', 'cache write discipline hoisted into cache.remember_build_status (used across three modules); the caching loop passes the method\'s key instead of the loop variable: every status lands in the slot of the configured key and a green one sticks; needs another SUCCESSFUL status context on the commit', False),
+ 'C04g': ('C04', 'S04r4', 'patch.diff', 'demo.py', 'GitHub get_summarized_reviews rewritten as a sorted loop: the COMMENTED filter runs after the latest review per author is chosen; needs a comment review posted after an approval or a change request', False),
+ 'C04h': ('C04', 'S04r4', 'patch2.diff', 'demo2.py', 'UserDict clean-up, the identity hashed is computed once in __init__; needs a user whose account id is set after construction (the robot after log-in): look-ups in approval sets fail', False),
+ 'C06f': ('C06', 'S06r4', 'patch.diff', 'demo.py', 'remove_unwanted_workflows single-pass: workflow_dispatch runs dropped after the best run per workflow is chosen; needs a hand-dispatched run that outranks the failed regular run of the same workflow', False),
+ 'C06g': ('C06', 'S06r4', 'patch2.diff', 'demo2.py', 'check_pull_request_skew with guard clauses, branch.includes_commit(local_sha1) instead of pr_sha1 (always true): an outdated clone is never detected; needs a push on a w/ branch while the job runs', False),
+ 'C07f': ('C07', 'S07r4', 'patch.diff', 'demo.py', 'Command / Option as frozen dataclasses, class Option(Command): isinstance(option, Command) holds and handle_commands runs option handlers without the authored check; needs `approve <token>` from a non-author', False),
+ 'C07g': ('C07', 'S07r4', 'patch2.diff', 'demo2.py', 'privilege computed once per author by _is_privileged; the own-PR guard compares admin.username with the PR author; needs admins configured as name@account_id on a host reporting account ids', False, TWIN_LIMIT),
+ 'C08e': ('C08', 'S08r4', 'patch.diff', 'demo.py', 'Repository.clone split up, cache refresh and clone refresh merged into one helper that lost --prune: the ~/.bert-e mirror never forgets deleted branches and push --all re-creates them; needs an existing mirror and a foreign branch deleted since', False),
+ 'C08f': ('C08', 'S08r4', 'patch2.diff', 'demo2.py', 'delete_branch tail extracted into archive_and_delete, deletion attached as finally: instead of else:; needs the archive tag creation or push to fail', True),
+ 'C09g': ('C09', 'S09r4', 'patch.diff', 'demo.py', 'target versions moved into next_version properties of the branch classes; DevelopmentBranch tests `not self.minor` instead of has_minor; needs development/x.0', False, TWIN_LIMIT),
+ 'C09h': ('C09', 'S09r4', 'patch2.diff', 'demo2.py', 'tag parsing moved into a TagVersion named tuple, hotfix guard compares version_t[:2] instead of [:3]; needs a tag of another micro version of the same x.y', False, TWIN_LIMIT),
+ 'C10g': ('C10', 'S10r4', 'patch.diff', 'demo.py', 'error conversion of handle_comments folded into _command_refused, robot hoisted into a local as its username (a str): the robot\'s own comments are no longer recognised on a host reporting account ids', False),
+ 'C10h': ('C10', 'S10r4', 'patch2.diff', 'demo2.py', 'clone cache handling extracted, the merged _update_remote helper dropped --prune for the mirror; needs a branch deleted on the host after the mirror saw it', False),
+ 'C11f': ('C11', 'S11r4', 'patch.diff', 'demo.py', 'jira_checks with bypass_reason() / jira_is_configured() helpers: check_issue_reference (which can refuse) now runs before the "Jira not configured" guard; needs an unconfigured instance and a ticketless branch', False),
+ 'C11g': ('C11', 'S11r4', 'patch2.diff', 'demo2.py', 'reference check folded into get_jira_issue (Optional result), the final bare raise replaced by LOG.exception: a 401/403/5xx lookup returns None and the gate fails open', False),
+ 'C12g': ('C12', 'S12r4', 'patch.diff', 'demo.py', 'init_settings as one update(copy(get_defaults())): the copy is applied to the dict, not to each default; after_pull_request ids stay for the life of the process', False),
+ 'C12h': ('C12', 'S12r4', 'patch2.diff', 'demo2.py', 'reactor regular expressions hoisted to module constants built from a shared SEPARATORS class that lost the /: a /wait or /after_pull_request=N declaration is silently ignored', False),
+ 'C13g': ('C13', 'S13r4', 'patch.diff', 'demo.py', 'APIJob builds its settings as {**self.kwargs, **(settings or {})}: the JSON body overrides the validated URL parameters', False),
+ 'C13h': ('C13', 'S13r4', 'patch2.diff', 'demo2.py', 'rmtree onerror callback hoisted to a method without @staticmethod but passed as self._on_rmtree_error: TypeError at the first removal error, Repository.reset() then fails before every job', False),
+ 'C14g': ('C14', 'S14r4', 'patch.diff', 'demo.py', 'auth responders merged, organisation check became `org and email and not email.endswith(...)`: a profile without e-mail gets a session; needs organization configured', True),
+ 'C14h': ('C14', 'S14r4', 'patch2.diff', 'demo2.py', 'APIEndpoint.view split up, the helper reads request.get_json(silent=True): a malformed body is answered 202 and the job built from the URL alone', False),
+ 'C15f': ('C15', 'S15r4', 'patch.diff', 'demo.py', '_reset registered for both commands with signature (job, force=False, *args): the first word after `reset` lands in force; needs `reset <word>` with manual commits on a w/ branch', False),
+ 'C15g': ('C15', 'S15r4', 'patch2.diff', 'demo2.py', 'Repository.clone split into helpers, the mirror refreshed with `git remote update origin` (no --prune); needs a warm mirror and a branch deleted since', False),
+ 'C16g': ('C16', 'S16r4', 'patch.diff', 'demo.py', 'mask_pwd made an explicit parameter of cmd / _do_cmd; the non-DEBUG call of _do_cmd no longer carries it: unmasked errors and output above DEBUG', False),
+ 'C16h': ('C16', 'S16r4', 'patch2.diff', 'demo2.py', 'clone clean-up logs the remote through public_url() whose credentials regex is \\w+:\\w+@; needs a login or quoted password with a character outside [A-Za-z0-9_]', False),
+ 'C17g': ('C17', 'S17r4', 'patch.diff', 'demo.py', 'cache helpers extracted, the caching loop became any(self._remember_build_status(...) for ...): it stops at the first key stored', False),
+ 'C17h': ('C17', 'S17r4', 'patch2.diff', 'demo2.py', 'branch_state over the set of conclusions, FAILED only if "failure" is among them: cancelled / timed_out runs read SUCCESSFUL', False, TWIN_LIMIT),
+ 'C18g': ('C18', 'S18r4', 'patch.diff', 'demo.py', 'early_checks classifies source then destination in two guard clauses, the destination stanza still tests cascade_producer; needs a hotfix or feature-like destination', False),
+ 'C18h': ('C18', 'S18r4', 'patch2.diff', 'demo2.py', 'per-class compiled pattern cached in cls._regex, the cache test reads through inheritance: GhostIntegrationBranch picks up IntegrationBranch\'s pattern; needs a w/ name classified first in the process', False),
+ 'C19h': ('C19', 'S19r4', 'patch.diff', 'demo.py', 'ls-remote parsing extracted, the tip -> branches index built with update((sha, {branch}) ...): one branch per commit survives; needs a commit that is the tip of two branches', False),
+ 'C19i': ('C19', 'S19r4', 'patch2.diff', 'demo2.py', 'remove_integration_branches() shared by the direct merge and the queue merge iterates wbranches[1:]: the queue caller\'s first integration branch stays on the remote; needs a queue merge with >= 2 targets', False),
+ 'C20g': ('C20', 'S20r4', 'patch.diff', 'demo.py', 'queued_prs rewritten with comprehensions, the top non-hotfix version taken without reversed(); needs >= 2 development queues', False, 'the order of a computed list (same as C09f / C05)'),
+ 'C20h': ('C20', 'S20r4', 'patch2.diff', 'demo2.py', 'cascade listing moved from a regex to string methods, the `* ` marker of the checked-out branch no longer stripped', False, TWIN_LIMIT),
+}
+
 
 def main():
     table = {k: (v[0], v[0], v[1], v[2], v[3], v[4]) for k, v in
@@ -138,15 +185,19 @@ def main():
         table = {k: v for k, v in SEEDS2.items()}
     elif len(sys.argv) > 1 and sys.argv[1] == 'r3':
         table = {k: v for k, v in SEEDS3.items()}
+    elif len(sys.argv) > 1 and sys.argv[1] == 'r4':
+        table = {k: v for k, v in SEEDS4.items()}
     elif len(sys.argv) > 1 and sys.argv[1] == 'all':
         table.update(SEEDS2)
         table.update(SEEDS3)
-    for name, (prop, sdir, patch, demo, needs, caught0) in sorted(
-            table.items()):
+        table.update(SEEDS4)
+    for name, row in sorted(table.items()):
+        prop, sdir, patch, demo, needs, caught0 = row[:6]
+        reach = row[6] if len(row) > 6 else None
         src = '/tmp/seed/%s.out' % sdir
         dst = '/verif/seeded/%s' % name
         conf = '/tmp/seed/confirm/%s' % name
-        if name in SEEDS3:
+        if name in SEEDS3 or name in SEEDS4:
             conf = '/tmp/seed/confirm/%s_%s' % (
                 sdir, '2' if '2' in patch else '1')
         if not os.path.exists(os.path.join(src, patch)):
@@ -183,7 +234,11 @@ def main():
                        if name in SEEDS2 else
                        ' (third round: asked for a change disguised as a '
                        'behaviour-preserving clean-up with one wrong detail)'
-                       if name in SEEDS3 else ''),
+                       if name in SEEDS3 else
+                       ' (fourth round: a larger clean-up -- helpers '
+                       'extracted across functions and modules -- with one '
+                       'wrong detail, delivered with a repaired twin)'
+                       if name in SEEDS4 else ''),
             'breaks_and_needs': needs,
             'files': {'patch': 'patch.diff', 'demonstration': demo},
             'confirmed_by_me': {
@@ -199,6 +254,15 @@ def main():
             'detected_now_by': fired,
             'rules_firing': rules,
         }
+        if reach:
+            meta['out_of_reach'] = reach
+        else:
+            try:
+                old = json.load(open(os.path.join(dst, 'meta.json')))
+                if old.get('out_of_reach'):
+                    meta['out_of_reach'] = old['out_of_reach']
+            except OSError:
+                pass
         with open(os.path.join(dst, 'meta.json'), 'w') as fh:
             json.dump(meta, fh, indent=1)
             fh.write('\n')
